@@ -7,6 +7,19 @@ import (
 	"github.com/edutko/jks-go/keystore"
 )
 
+// parseKeystore reads a JKS or JCEKS keystore. The keystore reader and the Java
+// deserializer behind it (sealed secret keys of JCEKS stores) take lengths and type
+// codes from the data and panic on some of them (a negative block or string length,
+// an array without a class description); such a file is reported as unparsable.
+func parseKeystore(data []byte) (k *keystore.Keystore, err error) {
+	defer func() {
+		if r := recover(); r != nil {
+			k, err = nil, fmt.Errorf("keystore parser: %v", r)
+		}
+	}()
+	return keystore.InsecureParse(data)
+}
+
 func parseJKSEntry(e keystore.Entry) Info {
 	info := Info{
 		Description: fmt.Sprintf("%s (%s)", e.Alias, e.Type),
